@@ -34,6 +34,7 @@ def mutants(prog):
     from .common import source_sub
     Fm = "deepali.core.flow"
     specs = [
+        ('compose_flows: identity coordinates in float32, cast up', 'deepali.core.flow', 'compose_flows', 'x = grid.coords(channels_last=False, dtype=u.dtype, device=u.device)', 'x = grid.coords(channels_last=False).to(u)', 'T4.dtype'),
         ("bch 1/2", Fm, "compose_svfs", "w = w.add(vu.mul(0.5))", "w = w.sub(vu.mul(0.5))", "T4.bch"),
         ("bch 1/12 coefficient", Fm, "compose_svfs", "w = w.add(vvu.mul(1 / 12))", "w = w.add(vvu.mul(1 / 6))", "T4.bch"),
         ("bch third sign", Fm, "compose_svfs", "w = w.sub(uvu.mul(1 / 12))", "w = w.add(uvu.mul(1 / 12))", "T4.bch"),
